@@ -17,7 +17,10 @@ use crate::{
     extensions::{ExtensionFactory, Extensions},
     parser::{
         Positioned, parse_query,
-        types::{Directive, DocumentOperations, OperationType, Selection, SelectionSet},
+        types::{
+            Directive, DocumentOperations, OperationType, Selection, SelectionSet,
+            VariableDefinition,
+        },
     },
     registry::{Registry, SDLExportOptions},
     resolver_utils::{resolve_container, resolve_container_serial},
@@ -802,8 +805,16 @@ fn check_recursive_depth(doc: &ExecutableDocument, max_depth: usize) -> ServerRe
     Ok(())
 }
 
-fn remove_skipped_selection(selection_set: &mut SelectionSet, variables: &Variables) {
-    fn is_skipped(directives: &[Positioned<Directive>], variables: &Variables) -> bool {
+fn remove_skipped_selection(
+    selection_set: &mut SelectionSet,
+    variables: &Variables,
+    variable_definitions: &[Positioned<VariableDefinition>],
+) {
+    fn is_skipped(
+        directives: &[Positioned<Directive>],
+        variables: &Variables,
+        variable_definitions: &[Positioned<VariableDefinition>],
+    ) -> bool {
         for directive in directives {
             let include = match &*directive.node.name.node {
                 "skip" => false,
@@ -815,7 +826,19 @@ fn remove_skipped_selection(selection_set: &mut SelectionSet, variables: &Variab
                 let value = condition_input
                     .node
                     .clone()
-                    .into_const_with(|name| variables.get(&name).cloned().ok_or(()))
+                    .into_const_with(|name| {
+                        variables
+                            .get(&name)
+                            .cloned()
+                            .or_else(|| {
+                                variable_definitions
+                                    .iter()
+                                    .find(|def| def.node.name.node == name)
+                                    .and_then(|def| def.node.default_value.as_ref())
+                                    .map(|value| value.node.clone())
+                            })
+                            .ok_or(())
+                    })
                     .unwrap_or_default();
                 let value: bool = InputType::parse(Some(value)).unwrap_or_default();
                 if include != value {
@@ -827,9 +850,9 @@ fn remove_skipped_selection(selection_set: &mut SelectionSet, variables: &Variab
         false
     }
 
-    selection_set
-        .items
-        .retain(|selection| !is_skipped(selection.node.directives(), variables));
+    selection_set.items.retain(|selection| {
+        !is_skipped(selection.node.directives(), variables, variable_definitions)
+    });
 
     for selection in &mut selection_set.items {
         selection.node.directives_mut().retain(|directive| {
@@ -840,11 +863,19 @@ fn remove_skipped_selection(selection_set: &mut SelectionSet, variables: &Variab
     for selection in &mut selection_set.items {
         match &mut selection.node {
             Selection::Field(field) => {
-                remove_skipped_selection(&mut field.node.selection_set.node, variables);
+                remove_skipped_selection(
+                    &mut field.node.selection_set.node,
+                    variables,
+                    variable_definitions,
+                );
             }
             Selection::FragmentSpread(_) => {}
             Selection::InlineFragment(inline_fragment) => {
-                remove_skipped_selection(&mut inline_fragment.node.selection_set.node, variables);
+                remove_skipped_selection(
+                    &mut inline_fragment.node.selection_set.node,
+                    variables,
+                    variable_definitions,
+                );
             }
         }
     }
@@ -933,10 +964,20 @@ pub(crate) async fn prepare_request(
     let (operation_name, mut operation) = operation.map_err(|err| vec![err])?;
 
     // remove skipped fields
+    let variable_definitions = std::mem::take(&mut operation.node.variable_definitions);
     for fragment in document.fragments.values_mut() {
-        remove_skipped_selection(&mut fragment.node.selection_set.node, &request.variables);
+        remove_skipped_selection(
+            &mut fragment.node.selection_set.node,
+            &request.variables,
+            &variable_definitions,
+        );
     }
-    remove_skipped_selection(&mut operation.node.selection_set.node, &request.variables);
+    remove_skipped_selection(
+        &mut operation.node.selection_set.node,
+        &request.variables,
+        &variable_definitions,
+    );
+    operation.node.variable_definitions = variable_definitions;
 
     let env = QueryEnvInner {
         extensions,
